@@ -3,6 +3,8 @@ CONSTANTS
   NSites = 6
   GeomSel = {"np1", "np2", "np24", "ultra", "sparse", "np2x"}
   ExportSites = 5
+  MaxCalls = 2
+  LabelWrites = "none"
   Variant = "fixed"
 INVARIANT Untouched
 INVARIANT Repaired
@@ -10,5 +12,6 @@ INVARIANT OrderIndependent
 INVARIANT NoSecondHand
 INVARIANT ZeroCase
 INVARIANT NotYet
+INVARIANT LabelsKept
 POSTCONDITION Export
 CHECK_DEADLOCK FALSE
